@@ -161,7 +161,9 @@ func (s *Sequencer) GetNextBatch(ctx context.Context, req coresequencer.GetNextB
 		}
 	}
 OuterLoop:
-	for size < maxBytes {
+	// Only scan DA once the carry-over queue is drained: transactions that are still
+	// queued come before anything found at later heights.
+	for size < maxBytes && s.pendingTxs.Len() == 0 {
 		// if we have exceeded maxHeightDrift, stop fetching more transactions
 		if nextDAHeight > lastDAHeight+s.maxHeightDrift {
 			s.logger.Debug("exceeded max height drift, stopping fetching more transactions")
